@@ -27,7 +27,7 @@ type C05Scenario struct {
 
 var c05Kinds = []string{
 	bhCorrect, bhCorrect, bhCorrect, bhCorrect, bhShift, bhShift, bhShiftInside, bhShiftInside, bhRepeatPrev, bhReorder, bhForged, bhWrongChain, bhNoChain, bhBadValidate,
-	bhGarbage, bhUnknownCode, bhNotFound, bhEmpty, bhShortPrefix, bhOverlap, bhMore, bhHang, bhReset, bhRawGarbage,
+	bhGarbage, bhUnknownCode, bhUnknownBody, bhNotFound, bhEmpty, bhShortPrefix, bhOverlap, bhMore, bhHang, bhReset, bhRawGarbage,
 	bhDupInside, bhGapInside, bhTruncated, bhOversized, bhNilBodyOK, bhInvalidCode,
 }
 
